@@ -24,6 +24,8 @@ import (
 	cptv "github.com/TheCacophonyProject/go-cptv"
 	"github.com/TheCacophonyProject/lepton3"
 	"gopkg.in/yaml.v1"
+
+	"github.com/TheCacophonyProject/thermal-recorder/motion"
 )
 
 func init() { verifStreams["e2e"] = verifStream{gen: genE2E, run: runE2E} }
@@ -39,6 +41,7 @@ func runE2E(in *bufio.Scanner, w *bufio.Writer) {
 	caseNo := 0
 	var curConf *Config
 	valid := uint32(0) // valid frames announced by the generator so far (this connection)
+	var stale *motion.MotionProcessor
 	active := false
 	for in.Scan() {
 		line := in.Text()
@@ -71,12 +74,13 @@ func runE2E(in *bufio.Scanner, w *bufio.Writer) {
 			if !conf.Recorder.Window.NoWindow {
 				conf.Recorder.Window.Now = func() time.Time {
 					if open {
-						return time.Date(2021, 3, 4, 10, 30, 0, 0, time.UTC)
+						return time.Date(2021, 3, 4, 10, 50, 0, 0, time.UTC)
 					}
 					return time.Date(2021, 3, 4, 12, 30, 0, 0, time.UTC)
 				}
 			}
 			processor = nil
+			stale = nil
 			headerInfo = nil
 			frameLogIntervalFirstMin, frameLogInterval = 15, 60*5
 			curConf = conf
@@ -90,6 +94,7 @@ func runE2E(in *bufio.Scanner, w *bufio.Writer) {
 			vReportConn(w, done)
 			valid = 0
 			headerInfo = nil
+			stale = processor // the previous connection's processor stays in the package variable until the new one is built
 			client, done = vStartConn(curConf)
 		case "b": // b <valid frames completed by the end of this segment> <hex>
 			if !active {
@@ -121,7 +126,7 @@ func runE2E(in *bufio.Scanner, w *bufio.Writer) {
 				continue
 			}
 			// wait until the frame loop has processed everything sent so far and is blocked reading the socket
-			vWaitQuiescent(func() bool { return processor != nil && processor.CurrentFrame >= valid })
+			vWaitQuiescent(func() bool { return processor != nil && processor != stale && processor.CurrentFrame >= valid })
 			if err := newSnapshotRecording(); err != nil {
 				fmt.Fprintln(w, "< testreq error")
 			}
@@ -271,7 +276,7 @@ func hexOfPix(pix [][]uint16) string {
 // ---------------------------------------------------------------------------------------
 
 type e2eCfg struct {
-	min, max, preview, constOn, diskOk, window, windowSet               int
+	min, max, preview, constOn, diskOk, window, windowSet, power        int
 	dyn, tmin, tmax, thresh, delta, count, gap, one, trig, warmer, edge int
 	throttle, bucketSecs                                                int
 	lepton                                                              int
@@ -300,6 +305,14 @@ func (c e2eCfg) toml() string {
 	win := "start-recording = \"12:00\"\nstop-recording = \"12:00\"\n"
 	if c.windowSet == 1 {
 		win = "start-recording = \"10:00\"\nstop-recording = \"11:00\"\n"
+		// the power window (when the camera is switched on) is a different pair of settings and wider
+		// than the recording window: 12:30, the "closed" clock, is inside it
+		switch c.power {
+		case 1:
+			win += "power-on = \"09:00\"\npower-off = \"13:00\"\n"
+		case 2:
+			win += "power-on = \"12:00\"\npower-off = \"10:45\"\n"
+		}
 	}
 	motion := ""
 	if c.motionDefaults == 0 {
@@ -358,6 +371,9 @@ func genE2E(r *vRng, tier string, w *bufio.Writer) {
 		}
 		if c.windowSet == 0 {
 			c.window = 1
+		} else {
+			c.window = r.pick(1, 0)
+			c.power = r.pick(0, 1, 2)
 		}
 		if c.throttle == 1 && c.min+c.preview == 0 {
 			c.min, c.max = 1, c.max+1 // refill rate (min+preview)*fps/min-refill must be > 0
